@@ -53,4 +53,31 @@ C10_CONSTEXPR inline bool c10_default_constructible(C10Bits b) {
 C10_CONSTEXPR inline bool c10_copy_constructible(C10Bits b) {
   return !c10_abstract(b) && c10_destructible(b) && c10_has_copy_ctor(b);
 }
+
+// ---- one base class:  class B { <special members of B, bits b>; int m; };  class A : public B { [void f();] int m; };
+// A declares no special member itself (everything implicit); a_overrides: A declares `void f();`, which overrides B's
+// pure virtual f when B has one (and is an ordinary non-virtual function otherwise).  b.mem must be M_INT.
+// a private VIRTUAL destructor in B makes the program ill-formed (A's implicit destructor would be a deleted function
+// overriding a non-deleted one): outside the domain
+C10_CONSTEXPR inline bool c10d_well_formed(C10Bits b) { return !(b.dt == K_VIRTUAL && b.dt_vis == A_PRIVATE); }
+C10_CONSTEXPR inline bool c10d_abstract(C10Bits b, int a_overrides) { return b.pv != 0 && !a_overrides; }
+C10_CONSTEXPR inline bool c10d_polymorphic(C10Bits b, int a_overrides) { return b.pv != 0 || b.dt == K_VIRTUAL; }
+// A's implicit destructor is deleted when B's is deleted or not accessible from A (private) [class.dtor]
+C10_CONSTEXPR inline bool c10d_destructible(C10Bits b, int a_overrides) {
+  return b.dt == K_NONE ? true : (b.dt != K_DELETE && b.dt_vis != A_PRIVATE);
+}
+// B's default / copy constructor usable by A's implicit ones: declared ones must not be deleted or private; an
+// undeclared default constructor exists only if B declares no constructor at all
+C10_CONSTEXPR inline bool c10d_base_default_ctor(C10Bits b) {
+  return b.dc == K_NONE ? b.cc == K_NONE : (b.dc == K_USER || b.dc == K_DEFAULT) ? b.dc_vis != A_PRIVATE : false;
+}
+C10_CONSTEXPR inline bool c10d_base_copy_ctor(C10Bits b) {
+  return b.cc == K_NONE ? true : (b.cc == K_USER || b.cc == K_DEFAULT) ? b.cc_vis != A_PRIVATE : false;
+}
+C10_CONSTEXPR inline bool c10d_default_constructible(C10Bits b, int a_overrides) {
+  return !c10d_abstract(b, a_overrides) && c10d_destructible(b, a_overrides) && c10d_base_default_ctor(b);
+}
+C10_CONSTEXPR inline bool c10d_copy_constructible(C10Bits b, int a_overrides) {
+  return !c10d_abstract(b, a_overrides) && c10d_destructible(b, a_overrides) && c10d_base_copy_ctor(b);
+}
 #endif
